@@ -503,6 +503,9 @@ class Prov:
             g = self.facts.fn(cl[1]) if cl[0] == "closure" else None
             if g is not None:
                 return multi([args[1], self.ret(g)])
+            if cl[0] == "fn":
+                # `x.map_or(d, f)` with a function item or a variant constructor (`Bound::Included`) passed by path
+                return multi([args[1], self._apply_fn_item(fn, bid, cl[1], payload(args[0], "some" if c["key"].startswith("std::option") else "ok"))])
         if c["key"] in ("std::option::Option::and_then", "std::result::Result::and_then") and len(args) == 2:
             # `x.and_then(f)` is `match x { Ok(v) => f(v), Err(e) => Err(e) }`
             cl = peel(args[1])
@@ -526,7 +529,7 @@ class Prov:
                 r = self.ret(g)
             elif cl[0] == "fn":
                 # `x.map(f)` with a function item: f applied to the payload
-                r = ("call", cl[1], (payload(args[0], "some" if c["key"].startswith("std::option") else "ok"),), None, (fn.key, bid))
+                r = self._apply_fn_item(fn, bid, cl[1], payload(args[0], "some" if c["key"].startswith("std::option") else "ok"))
             if r is not None:
                 if c["key"].startswith("std::option"):
                     return multi([("agg", "std::option::Option::Some", (("0", r),)), ("agg", "std::option::Option::None", ())])
@@ -554,6 +557,18 @@ class Prov:
                     return None
                 return map_origin(self.ret(g), sub)
         return ("call", c["key"], args, c.get("resolved"), (fn.key, bid))
+
+    CTOR_FN_ITEMS = ("std::ops::Bound::Included", "std::ops::Bound::Excluded", "std::option::Option::Some", "std::result::Result::Ok",
+                     "std::result::Result::Err")
+
+    def _apply_fn_item(self, fn, bid, key, arg):
+        """`f(arg)` for a function item named by path: a tuple-variant constructor builds the variant, anything else is a call"""
+        local_variant = key.rsplit("::", 1)[0] in self.facts.adts and any(v.get("name") == key.rsplit("::", 1)[1] for v in self.facts.adts[key.rsplit("::", 1)[0]].get("variants", []))
+        if key in self.CTOR_FN_ITEMS or local_variant:
+            return ("agg", key, (("0", arg),))
+        if callee_is_vp({"key": key, "name": key.rsplit("::", 1)[-1]}):
+            return ("vp", key.rsplit("::", 1)[-1], arg)        # `.map(<[u8]>::to_vec)`
+        return ("call", key, (arg,), None, (fn.key, bid))
 
     def _is_constructor_like(self, g):
         """a local non-closure function whose body is straight-line and makes no call other than value-preserving ones"""
